@@ -291,6 +291,8 @@ class Pipeline:
         self.gen_mod = src.mod("codegen/python/python_generator.py")
         self.gen_cls = self.gen_mod.get_class("PythonCodeGen")
         self.token_kinds = self._token_kinds()
+        cands = [pr.syms[1] for pr in self.grammar.by_name("header_id") if len(pr.syms) == 2]
+        self.ident_token = cands[0] if cands else "ID"
 
     def _main_lexer(self) -> LexerClass:
         # the lexer whose tokens the parser uses / that parse_source instantiates
@@ -353,9 +355,9 @@ class Pipeline:
         gen = interp.instantiate(cv, [root], {"expose_experiment_variant_function": expose}, "pipeline")
         return interp.apply(interp.getattr(gen, "generate", "pipeline"), [], {}, "pipeline")
 
-    def run(self, prog: Prog, expose: bool):
+    def run(self, prog: Prog, expose: bool, toks=None):
         """Return a list of Outcome (one per fork of undetermined decisions)."""
-        toks = prog_tokens(prog)
+        toks = prog_tokens(prog) if toks is None else toks
 
         def job(it: A.Interp):
             root = self.parse_to_ast(toks, it)
@@ -922,3 +924,74 @@ class Family:
         yield Prog(b.ident("e5"), b.string("salt"), [b.ident("s1")],
                    ("if", [("cmp", "KW_EQ", ("id", b.ident("aaa")), ("id", b.ident("zzz")))], self.groups(1), None),
                    "identifier compared with identifier")
+
+
+# ------------------------------------------------------------------ production coverage
+def cover_sentences(pl: "Pipeline"):
+    """For every production of the *extracted* grammar, a minimal sentence (token list with
+    opaque values) whose derivation uses it.  Used for rules that must see every grammar
+    position a token value can flow from, including productions the reference grammar lacks."""
+    g = pl.grammar
+    nts = set(g.nonterminals)
+    INF = 10 ** 9
+    best: dict[str, list] = {}
+    changed = True
+    while changed:
+        changed = False
+        for p in g.prods[1:]:
+            if all((s not in nts) or s in best for s in p.syms):
+                exp = []
+                for s in p.syms:
+                    exp += best[s] if s in nts else [s]
+                if p.name not in best or len(exp) < len(best[p.name]):
+                    best[p.name] = exp
+                    changed = True
+    ctx = {g.start: ([], [])}
+    changed = True
+    while changed:
+        changed = False
+        for p in g.prods[1:]:
+            if p.name not in ctx:
+                continue
+            pre, suf = ctx[p.name]
+            for i, s in enumerate(p.syms):
+                if s not in nts:
+                    continue
+                if any((x in nts and x not in best) for x in p.syms[:i] + p.syms[i + 1:]):
+                    continue
+                left, right = [], []
+                for x in p.syms[:i]:
+                    left += best[x] if x in nts else [x]
+                for x in p.syms[i + 1:]:
+                    right += best[x] if x in nts else [x]
+                cand = (pre + left, right + suf)
+                if s not in ctx or len(cand[0]) + len(cand[1]) < len(ctx[s][0]) + len(ctx[s][1]):
+                    ctx[s] = cand
+                    changed = True
+    b = ShapeBuilder()
+    out = []
+    for p in g.prods[1:]:
+        if p.name not in ctx or any((s in nts and s not in best) for s in p.syms):
+            out.append((p, None))
+            continue
+        mid = []
+        for s in p.syms:
+            mid += best[s] if s in nts else [s]
+        types = ctx[p.name][0] + mid + ctx[p.name][1]
+        toks = []
+        k = 0
+        for t in types:
+            kind = pl.token_kinds.get(t, ("raw", None))
+            if t == pl.ident_token:
+                k += 1
+                toks.append(Tok(t, b.ident(f"cov_id{k}")))
+            elif kind[0] == "value" and kind[1] == "str":
+                toks.append(Tok(t, b.string("cov")))
+            elif kind[0] == "value" and kind[1] == "int":
+                toks.append(Tok(t, b.integer("cov")))
+            elif kind[0] == "value" and kind[1] == "float":
+                toks.append(Tok(t, b.decimal("cov")))
+            else:
+                toks.append(Tok(t, A.Sym("rawtoken", t)))
+        out.append((p, toks))
+    return out
